@@ -137,6 +137,7 @@ def component(pred_name, shared):
     return c
 
 
-COMPONENTS = [component("c07_immediate_ok", True), component("c07_delayed_ok", False),
-              component("c07_fires_ok", False), component("c07_pre_monitor", False),
-              component("c07_idle_silent_partial", False), component("c07_window_update_ok", False)]
+ALL_PREDS = ["c07_immediate_ok", "c07_delayed_ok", "c07_fires_ok", "c07_pre_monitor", "c07_idle_silent_partial",
+             "c07_window_update_ok"]
+COMPONENTS = [component("+".join(ALL_PREDS), True)]
+COMPONENTS[0]["name"] = "vsock_c07"
